@@ -446,6 +446,196 @@ func structFields(files pkgFiles, name string) []string {
 	return out
 }
 
+// flatStmts prints a function body as a flat list: compound statements contribute a header line
+// ("if <cond>", "else", "for …", "range …", "switch …", "case …") followed by their bodies.
+func flatStmts(list []ast.Stmt) []string {
+	var out []string
+	var walk func(st ast.Stmt)
+	walk = func(st ast.Stmt) {
+		switch x := st.(type) {
+		case *ast.BlockStmt:
+			for _, s := range x.List {
+				walk(s)
+			}
+		case *ast.IfStmt:
+			h := "if "
+			if x.Init != nil {
+				h += exprStr(x.Init) + "; "
+			}
+			out = append(out, h+exprStr(x.Cond))
+			walk(x.Body)
+			if x.Else != nil {
+				out = append(out, "else")
+				walk(x.Else)
+			}
+		case *ast.ForStmt:
+			h := "for"
+			if x.Init != nil {
+				h += " " + exprStr(x.Init) + ";"
+			}
+			if x.Cond != nil {
+				h += " " + exprStr(x.Cond)
+			}
+			if x.Post != nil {
+				h += "; " + exprStr(x.Post)
+			}
+			out = append(out, h)
+			walk(x.Body)
+		case *ast.RangeStmt:
+			out = append(out, "range "+exprStr(x.X))
+			walk(x.Body)
+		case *ast.SwitchStmt:
+			h := "switch"
+			if x.Tag != nil {
+				h += " " + exprStr(x.Tag)
+			}
+			out = append(out, h)
+			walk(x.Body)
+		case *ast.CaseClause:
+			if x.List == nil {
+				out = append(out, "default")
+			} else {
+				parts := make([]string, len(x.List))
+				for i, e := range x.List {
+					parts[i] = exprStr(e)
+				}
+				out = append(out, "case "+strings.Join(parts, ", "))
+			}
+			for _, s := range x.Body {
+				walk(s)
+			}
+		default:
+			if t := exprStr(st); !strings.HasPrefix(t, "verifhook.") { // build-tagged yield points are not part of the function's logic
+				out = append(out, t)
+			}
+		}
+	}
+	for _, s := range list {
+		walk(s)
+	}
+	return out
+}
+
+func funcStmts(fd *ast.FuncDecl) []string {
+	if fd == nil {
+		return nil
+	}
+	return flatStmts(fd.Body.List)
+}
+
+// cacheHitBody returns the body of the first top-level `if x, ok := <map>[id]; ok { … }` of fd.
+func cacheHitBody(fd *ast.FuncDecl) *ast.BlockStmt {
+	if fd == nil {
+		return nil
+	}
+	for _, st := range fd.Body.List {
+		if is, ok := st.(*ast.IfStmt); ok && is.Init != nil && exprStr(is.Cond) == "ok" {
+			return is.Body
+		}
+	}
+	return nil
+}
+
+// hitShape classifies what a vector getter does on a cache hit:
+// "returns-field" (`return e.<field>, nil`), "nil-check-then-error" (`if e.<field> == nil { return nil, <err> }; return e.<field>, nil`), else "unknown".
+func hitShape(fd *ast.FuncDecl, field string) string {
+	b := cacheHitBody(fd)
+	if b == nil {
+		return "unknown"
+	}
+	isFieldReturn := func(st ast.Stmt) bool {
+		r, ok := st.(*ast.ReturnStmt)
+		if !ok || len(r.Results) != 2 || exprStr(r.Results[1]) != "nil" {
+			return false
+		}
+		se, ok := r.Results[0].(*ast.SelectorExpr)
+		return ok && se.Sel.Name == field
+	}
+	switch len(b.List) {
+	case 1:
+		if isFieldReturn(b.List[0]) {
+			return "returns-field"
+		}
+	case 2:
+		is, ok := b.List[0].(*ast.IfStmt)
+		if !ok || is.Else != nil || len(is.Body.List) != 1 || !isFieldReturn(b.List[1]) {
+			return "unknown"
+		}
+		be, ok := is.Cond.(*ast.BinaryExpr)
+		if !ok || be.Op != token.EQL || exprStr(be.Y) != "nil" {
+			return "unknown"
+		}
+		if se, ok := be.X.(*ast.SelectorExpr); !ok || se.Sel.Name != field {
+			return "unknown"
+		}
+		r, ok := is.Body.List[0].(*ast.ReturnStmt)
+		if ok && len(r.Results) == 2 && exprStr(r.Results[0]) == "nil" && exprStr(r.Results[1]) != "nil" {
+			return "nil-check-then-error"
+		}
+	}
+	return "unknown"
+}
+
+// helpSuffixes finds, in each named function, the calls of the vector getters and returns
+// (getter name, bytes of the string literal in the help argument `name + "<suffix>"`).
+func helpSuffixes(files pkgFiles, funcs []string) string {
+	var items []string
+	for _, fn := range funcs {
+		fd := findFunc(files, "reporter", fn)
+		if fd == nil {
+			continue
+		}
+		ast.Inspect(fd.Body, func(n ast.Node) bool {
+			ce, ok := n.(*ast.CallExpr)
+			if !ok {
+				return true
+			}
+			se, ok := ce.Fun.(*ast.SelectorExpr)
+			if !ok || !strings.HasSuffix(se.Sel.Name, "Vec") || len(ce.Args) < 3 {
+				return true
+			}
+			be, ok := ce.Args[2].(*ast.BinaryExpr)
+			if !ok || be.Op != token.ADD || exprStr(be.X) != "name" {
+				return true
+			}
+			lit, ok := be.Y.(*ast.BasicLit)
+			if !ok || lit.Kind != token.STRING {
+				return true
+			}
+			sfx, err := strconv.Unquote(lit.Value)
+			if err != nil {
+				return true
+			}
+			bs := make([]string, len(sfx))
+			for i := 0; i < len(sfx); i++ {
+				bs[i] = strconv.Itoa(int(sfx[i]))
+			}
+			items = append(items, fmt.Sprintf("(%s, [%s])", leanStr(fn+":"+se.Sel.Name), strings.Join(bs, ", ")))
+			return true
+		})
+	}
+	return "[" + strings.Join(items, ", ") + "]"
+}
+
+// errBranch returns the flattened body of the first `if err != nil { … }` found anywhere in fd.
+func errBranch(fd *ast.FuncDecl) []string {
+	if fd == nil {
+		return nil
+	}
+	var res []string
+	ast.Inspect(fd.Body, func(n ast.Node) bool {
+		if res != nil {
+			return false
+		}
+		if is, ok := n.(*ast.IfStmt); ok && exprStr(is.Cond) == "err != nil" {
+			res = flatStmts(is.Body.List)
+			return false
+		}
+		return true
+	})
+	return res
+}
+
 func leanStr(s string) string { return strconv.Quote(s) }
 
 func leanStrList(l []string) string {
@@ -491,7 +681,6 @@ func main() {
 	prom := parseDir(filepath.Join(root, "prometheus"))
 	instr := parseDir(filepath.Join(root, "instrument"))
 	_ = cache
-	_ = prom
 
 	o := &out{}
 	o.b.WriteString("/-! GENERATED by tools/factgen from the Go sources under /repo — do not edit. -/\nnamespace Tally.Facts\n\n")
@@ -612,6 +801,25 @@ func main() {
 	o.int("udpMaxLength", constValue(udp, "MaxLength"), udp, "thriftudp: MaxLength")
 	o.strs("udpWriteComparisons", comparisons(findFunc(udp, "TUDPTransport", "Write")), "comparisons in TUDPTransport.Write")
 	o.strs("udpFlushOps", syncOps(findFunc(udp, "TUDPTransport", "Flush"), map[string]bool{"Write": true, "Reset": true, "IsOpen": true}), "TUDPTransport.Flush")
+	udpCalls := map[string]bool{"IsOpen": true, "Len": true, "Write": true, "WriteByte": true, "WriteString": true, "Reset": true, "Close": true, "Flush": true}
+	o.strs("udpWriteOps", syncOps(findFunc(udp, "TUDPTransport", "Write"), udpCalls), "TUDPTransport.Write")
+	o.strs("udpWriteByteOps", syncOps(findFunc(udp, "TUDPTransport", "WriteByte"), udpCalls), "TUDPTransport.WriteByte")
+	o.strs("udpWriteByteComparisons", comparisons(findFunc(udp, "TUDPTransport", "WriteByte")), "comparisons in TUDPTransport.WriteByte")
+	o.strs("udpWriteStringOps", syncOps(findFunc(udp, "TUDPTransport", "WriteString"), udpCalls), "TUDPTransport.WriteString")
+	o.strs("udpWriteStringComparisons", comparisons(findFunc(udp, "TUDPTransport", "WriteString")), "comparisons in TUDPTransport.WriteString")
+	o.strs("udpFlushReturns", returnsIn(findFunc(udp, "TUDPTransport", "Flush")), "TUDPTransport.Flush returns")
+	o.strs("udpCloseOps", syncOps(findFunc(udp, "TUDPTransport", "Close"), udpCalls), "TUDPTransport.Close")
+	o.strs("udpCloseComparisons", guards(findFunc(udp, "TUDPTransport", "Close")), "TUDPTransport.Close guard")
+	o.strs("udpIsOpenReturns", returnsIn(findFunc(udp, "TUDPTransport", "IsOpen")), "TUDPTransport.IsOpen")
+	for _, m := range []string{"Write", "Flush", "Close", "IsOpen"} {
+		fd := findFunc(udp, "TMultiUDPTransport", m)
+		o.strs("udpMulti"+m+"Ops", syncOps(fd, udpCalls), "TMultiUDPTransport."+m+": calls in the loop")
+		o.strs("udpMulti"+m+"Comparisons", comparisons(fd), "TMultiUDPTransport."+m+": comparisons")
+		o.strs("udpMulti"+m+"Returns", returnsIn(fd), "TMultiUDPTransport."+m+": returns")
+	}
+	m3v2 := parseDir(filepath.Join(root, "m3", "thrift", "v2"))
+	o.strs("m3SendEmitOps", syncOps(findFunc(m3v2, "M3Client", "sendEmitMetricBatchV2"), map[string]bool{"WriteMessageBegin": true, "Write": true, "WriteMessageEnd": true, "Flush": true}), "M3Client.sendEmitMetricBatchV2: protocol calls")
+	o.strs("m3SendEmitReturns", returnsIn(findFunc(m3v2, "M3Client", "sendEmitMetricBatchV2")), "M3Client.sendEmitMetricBatchV2: returns")
 
 	// multi (C19): complete bodies of the constructors and of every forwarding method
 	for _, m := range [][3]string{
@@ -642,6 +850,36 @@ func main() {
 		"valueBucketString", "durationBucketString", "Capabilities", "Reporting", "Tagging"} {
 		o.strs("statsd"+strings.ToUpper(n[:1])+n[1:], topStmts(findFunc(statsd, "cactusStatsReporter", n)), "statsd (*cactusStatsReporter)."+n+": top-level statements")
 	}
+
+	// prometheus reporter
+	o.str("promSummaryVecHitShape", hitShape(findFunc(prom, "reporter", "summaryVec"), "summary"), "prometheus summaryVec: what a cache hit returns")
+	o.str("promHistogramVecHitShape", hitShape(findFunc(prom, "reporter", "histogramVec"), "histogram"), "prometheus histogramVec: what a cache hit returns")
+	hitStmts := func(name string) []string {
+		if b := cacheHitBody(findFunc(prom, "reporter", name)); b != nil {
+			return flatStmts(b.List)
+		}
+		return nil
+	}
+	o.strs("promSummaryVecHit", hitStmts("summaryVec"), "prometheus summaryVec: statements of the cache-hit branch")
+	o.strs("promHistogramVecHit", hitStmts("histogramVec"), "prometheus histogramVec: statements of the cache-hit branch")
+	o.strs("promCounterVecStmts", funcStmts(findFunc(prom, "reporter", "counterVec")), "prometheus counterVec, flattened")
+	o.strs("promGaugeVecStmts", funcStmts(findFunc(prom, "reporter", "gaugeVec")), "prometheus gaugeVec, flattened")
+	fmt.Fprintf(&o.b, "/-- help argument suffixes at the vector-getter calls of the Allocate functions -/\ndef promHelpSuffixes : List (String × List UInt8) := %s\n\n",
+		helpSuffixes(prom, []string{"AllocateCounter", "AllocateGauge", "AllocateTimer", "AllocateHistogram"}))
+	o.strs("promCanonicalMetricIDStmts", funcStmts(findFunc(prom, "", "canonicalMetricID")), "prometheus canonicalMetricID, flattened")
+	for _, n := range []string{"AllocateCounter", "AllocateGauge", "AllocateTimer", "AllocateHistogram"} {
+		o.strs("promErrBranch"+n, errBranch(findFunc(prom, "reporter", n)), "prometheus "+n+": the err != nil branch")
+	}
+	o.strs("promReportSamplesStmts", funcStmts(findFunc(prom, "cachedHistogramBucket", "ReportSamples")), "prometheus cachedHistogramBucket.ReportSamples")
+	o.strs("promValueBucketStmts", funcStmts(findFunc(prom, "cachedMetric", "ValueBucket")), "prometheus cachedMetric.ValueBucket")
+	o.strs("promDurationBucketStmts", funcStmts(findFunc(prom, "cachedMetric", "DurationBucket")), "prometheus cachedMetric.DurationBucket")
+	o.strs("promReportCountStmts", funcStmts(findFunc(prom, "cachedMetric", "ReportCount")), "prometheus cachedMetric.ReportCount")
+	o.strs("promReportGaugeStmts", funcStmts(findFunc(prom, "cachedMetric", "ReportGauge")), "prometheus cachedMetric.ReportGauge")
+	o.strs("promReportTimerHistogramStmts", funcStmts(findFunc(prom, "cachedMetric", "reportTimerHistogram")), "prometheus cachedMetric.reportTimerHistogram")
+	o.strs("promReportTimerSummaryStmts", funcStmts(findFunc(prom, "cachedMetric", "reportTimerSummary")), "prometheus cachedMetric.reportTimerSummary")
+	o.strs("durationBucketsAsValuesStmts", funcStmts(findFunc(tally, "DurationBuckets", "AsValues")), "DurationBuckets.AsValues")
+	o.strs("valueBucketsAsValuesStmts", funcStmts(findFunc(tally, "ValueBuckets", "AsValues")), "ValueBuckets.AsValues")
+	o.strs("histogramCachedReportStmts", funcStmts(findFunc(tally, "histogram", "cachedReport")), "(*histogram).cachedReport, flattened")
 
 	// instrument
 	o.strs("instrumentExecOps", syncOps(findFunc(instr, "call", "Exec"), map[string]bool{"Start": true, "Stop": true, "f": true}), "instrument (*call).Exec")
